@@ -368,3 +368,29 @@ let () =
     let until = if until = Z0 then now else until in
     let q = view_query file (getz kv "archive" (-1)) (getz kv "from" 0) until now in
     obs "cliquerycap path=/view q=%s" (if q = [] then "-" else Ops_text.hex_of_str q))
+;;
+let () =
+  let unhexs h = if h = "-" then [] else Ops_text.str_of_hex h in
+  register "clirawdump" (fun tk ->
+    let kv = kv_of tk in
+    let raw = unhexs (get kv "q" "-") in
+    let prefix = string_of_codes (unhexs (get kv "prefix" "-")) ^ "/" in
+    let lookup' (file : z list) =
+      let f = string_of_codes file in
+      if starts_with prefix f then lookup (String.sub f (String.length prefix) (String.length f - String.length prefix)) else None in
+    match handle_view_raw lookup' raw with
+    | HBadRequest -> obs "clirawdump bad"
+    | HServerError -> obs "clirawdump err"
+    | HPanic -> obs "clirawdump transport-error"
+    | HBody [] -> obs "clirawdump notexist"
+    | HBody b ->
+      (match client_view_raw b with
+       | WOk (hd, pl) ->
+         obs "clirawdump ok";
+         obs "out wirehdr %s" (Ops_codec.show_header hd);
+         List.iteri (fun i ps ->
+             let l = List.sort compare (List.map (fun p -> Printf.sprintf "%010d:%s" (int_of_z p.p_time) (show_val p.p_val)) ps) in
+             obs "out rawpts %d [%s]" i (String.concat " " l)) pl;
+         obs "out rest 0"
+       | _ -> obs "clirawdump undecodable-header"))
+
